@@ -76,6 +76,10 @@ type c12Case struct {
 	Reannounce  []int    `json:"reannounce"`
 	EORs        []c12EOR `json:"eors"`
 	SecondLoss  bool     `json:"second_loss"` // the transport fails again before End-of-RIB
+	// SecondCycle: after R is back and has sent every End-of-RIB its transport fails once more, much later: a complete
+	// second restart cycle (restart timer, long-lived window) must run like the first
+	SecondCycle bool `json:"second_cycle"`
+	OtherSub9   bool `json:"other_sub9"` // the non-Cease NOTIFICATION carries subcode 9 (3/9), the number Hard Reset has under Cease
 }
 
 func drawC12(t *rapid.T) c12Case {
@@ -100,15 +104,28 @@ func drawC12(t *rapid.T) c12Case {
 		c.Routes = append(c.Routes, r)
 	}
 	// (the server accepts a new connection only after its idle hold time of 5 s)
-	c.Reconnect = c.Open.Time >= 12 && rapid.Bool().Draw(t, "reconnect")
+	c.OtherSub9 = rapid.Bool().Draw(t, "other_sub9")
+	c.Reconnect = rapid.Bool().Draw(t, "reconnect")
 	if c.Reconnect {
-		c.ReconnectAt = rapid.SampledFrom([]int{6, 8, c.Open.Time - 1}).Draw(t, "reconnect_at")
+		// inside the restart window, or two seconds into the long-lived window
+		if c.Open.Time >= 12 {
+			c.ReconnectAt = rapid.SampledFrom([]int{6, 8, c.Open.Time - 1, c.Open.Time + 8, c.Open.Time + 8}).Draw(t, "reconnect_at")
+		} else {
+			c.ReconnectAt = c.Open.Time + 8 // (the restart-timer expiry sends the FSM through Idle: 5 s idle hold)
+		}
+		c.SecondCycle = rapid.Bool().Draw(t, "second_cycle")
 		for i := range c.Routes {
 			if rapid.Bool().Draw(t, fmt.Sprintf("re%d", i)) {
 				c.Reannounce = append(c.Reannounce, i)
 			}
 		}
 		c.SecondLoss = rapid.IntRange(0, 3).Draw(t, "second_loss") == 0
+		if c.ReconnectAt > c.Open.Time && c.ReconnectAt <= c.Open.Time+c.Open.LLTime+1 {
+			// a session that resets again inside the long-lived window before it is synchronised: RFC 9494 lets the
+			// running long-lived timers go on and gobgp marks routes only once; what happens to the routes of the short
+			// session in between is not pinned down by the property: not generated
+			c.SecondLoss = false
+		}
 		order := rapid.Permutation([]bool{false, true}).Draw(t, "eor_order")
 		for i, v6 := range order {
 			c.EORs = append(c.EORs, c12EOR{V6: v6, After: rapid.SampledFrom([]int{0, 1, 5, 40}).Draw(t, fmt.Sprintf("eor%d", i))})
@@ -413,7 +430,11 @@ func runC12(t *testing.T) func(c c12Case, st *verifkit.Stats) *verifkit.Failure 
 			case c12NotifCease:
 				_ = x.sess.send(bgp.NewBGPNotificationMessage(bgp.BGP_ERROR_CEASE, bgp.BGP_ERROR_SUB_ADMINISTRATIVE_RESET, nil), nil)
 			case c12NotifOther:
-				_ = x.sess.send(bgp.NewBGPNotificationMessage(bgp.BGP_ERROR_UPDATE_MESSAGE_ERROR, bgp.BGP_ERROR_SUB_MALFORMED_ATTRIBUTE_LIST, nil), nil)
+				sub := uint8(bgp.BGP_ERROR_SUB_MALFORMED_ATTRIBUTE_LIST)
+				if c.OtherSub9 {
+					sub = bgp.BGP_ERROR_SUB_OPTIONAL_ATTRIBUTE_ERROR // 9
+				}
+				_ = x.sess.send(bgp.NewBGPNotificationMessage(bgp.BGP_ERROR_UPDATE_MESSAGE_ERROR, sub, nil), nil)
 			case c12NotifHardReset:
 				_ = x.sess.send(bgp.NewBGPNotificationMessage(bgp.BGP_ERROR_CEASE, bgp.BGP_ERROR_SUB_HARD_RESET, nil), nil)
 			case c12AdminDown:
@@ -462,6 +483,25 @@ func runC12(t *testing.T) func(c c12Case, st *verifkit.Stats) *verifkit.Failure 
 				return n.stop()
 			}
 			// ---- R comes back inside the window ----
+			inLLGR := false
+			if c.ReconnectAt > c.Open.Time {
+				at(T + time.Second)
+				m.atRestartTimer()
+				if f := x.verify(m, "one second after the restart timer"); f != nil {
+					return f
+				}
+				LL := time.Duration(c.Open.LLTime) * time.Second
+				if m.llgrNegotiated() && time.Duration(c.ReconnectAt)*time.Second > T+LL {
+					at(T + LL + time.Second)
+					m.atLLGRTimer()
+					if f := x.verify(m, "one second after the long-lived timer"); f != nil {
+						return f
+					}
+				} else if m.llgrNegotiated() {
+					inLLGR = true
+					st.Label("reconnect-in-long-lived-window")
+				}
+			}
 			at(time.Duration(c.ReconnectAt) * time.Second)
 			ss, _, err = n.establish(x.r.def(), x.openSpec(true))
 			if err != nil {
@@ -477,7 +517,7 @@ func runC12(t *testing.T) func(c c12Case, st *verifkit.Stats) *verifkit.Failure 
 				if !m.routes[i].present {
 					m.routes[i].present = true // family not preserved: simply a new route
 				}
-				m.routes[i].stale = false
+				m.routes[i].stale, m.routes[i].llgr = false, false
 			}
 			if f := x.verify(m, "after the re-announcements"); f != nil {
 				return f
@@ -523,6 +563,9 @@ func runC12(t *testing.T) func(c c12Case, st *verifkit.Stats) *verifkit.Failure 
 				}
 			}
 			for _, e := range c.EORs {
+				if inLLGR && e.After > 1 {
+					e.After = 1 // (stay inside the long-lived window: what its expiry does to a peer that is back is another question)
+				}
 				n.advance(time.Duration(e.After) * time.Second)
 				fam := bgp.RF_IPv4_UC
 				if e.V6 {
@@ -549,6 +592,44 @@ func runC12(t *testing.T) func(c c12Case, st *verifkit.Stats) *verifkit.Failure 
 			}
 			st.Label("reconnected")
 			st.Nontrivial()
+			if c.SecondCycle && !c.SecondLoss && len(need) == 0 {
+				// ---- a second, complete restart cycle ----
+				x.sess.close()
+				n.settle()
+				x.t0 = n.now()
+				first := c.Loss
+				c.Loss = c12Close // (the model's graceful() looks at the kind of loss)
+				x.logf("second cycle: transport lost; graceful=%v", m.graceful())
+				m.atLoss()
+				if f := x.verify(m, "second cycle, right after the loss"); f != nil {
+					return f
+				}
+				at(T - time.Second)
+				if f := x.verify(m, "second cycle, one second before the restart timer"); f != nil {
+					return f
+				}
+				at(T + time.Second)
+				if m.graceful() {
+					m.atRestartTimer()
+				}
+				if f := x.verify(m, "second cycle, one second after the restart timer"); f != nil {
+					return f
+				}
+				if m.llgrNegotiated() && m.graceful() {
+					LL := time.Duration(c.Open.LLTime) * time.Second
+					at(T + LL - time.Second)
+					if f := x.verify(m, "second cycle, one second before the long-lived timer"); f != nil {
+						return f
+					}
+					at(T + LL + time.Second)
+					m.atLLGRTimer()
+					if f := x.verify(m, "second cycle, one second after the long-lived timer"); f != nil {
+						return f
+					}
+				}
+				c.Loss = first
+				st.Label("second-cycle")
+			}
 			return n.stop()
 		})
 	}
